@@ -1,6 +1,7 @@
 package checks
 
 import (
+	"regexp"
 	"encoding/json"
 	"fmt"
 	"os"
@@ -86,17 +87,20 @@ func cliFail(res *engine.Result, what string, r cliResult) bool {
 // ---- C03 / C04 / C18a: abstract models through `coca call`, `coca rcall`, `coca count` ---------------------
 
 func cliGraphGen(c *engine.C) engine.Case {
-	g := buildGraph(c, graphOpts{N: 3, MaxMult: 2, Extras: true, DistMenu: true})
+	// zero-deviation model: a cycle m0 -> m1 -> m2 -> m0 over two packages, root m0
+	g := buildGraph(c, graphOpts{N: 3, MaxMult: 2, Extras: true, DistMenu: true, DefaultDist: 2, DefaultCycle: true})
 	ri := c.Choose(4, "root")
 	root := "p.A.absent"
-	if ri > 0 {
-		root = g.Names[ri-1]
+	if ri < 3 {
+		root = g.Names[ri]
 	}
 	lookup := c.Bool("lookup")
+	remove := []string{"", "p.", "q.", "A.", "p.A.m"}[c.Choose(5, "remove-text")]
+	g.Model.FilePaths = []string{"per-class", "shared", ""}[c.Choose(3, "source-files")]
 	top := c.Choose(3, "count-top")
 	return func() engine.Result {
 		deps := g.Model.ToDeps()
-		res := engine.Result{InputKey: g.Model.String() + root + fmt.Sprint(lookup, top), Input: map[string]interface{}{"model": strings.Split(strings.TrimSpace(g.Model.String()), "\n"), "root": root, "lookup": lookup}, Nontrivial: true}
+		res := engine.Result{InputKey: g.Model.String() + root + fmt.Sprint(lookup, top, remove, g.Model.FilePaths), Input: map[string]interface{}{"model": strings.Split(strings.TrimSpace(g.Model.String()), "\n"), "root": root, "lookup": lookup, "remove": remove}, Nontrivial: true}
 		cwd, cleanup := materialise(nil)
 		defer cleanup()
 		writeReporter(cwd, "deps.json", deps)
@@ -106,27 +110,40 @@ func cliGraphGen(c *engine.C) engine.Case {
 		if lookup {
 			args = append(args, "-l")
 		}
+		if remove != "" {
+			args = append(args, "-r", remove)
+		}
 		if r := runCLI(cwd, args...); !cliFail(&res, "call", r) {
 			b, _ := os.ReadFile(filepath.Join(cwd, "coca_reporter", "call.dot"))
 			if engine.Reset != nil {
 				engine.Reset()
 			}
 			want := call.NewCallGraph().Analysis(root, deps, lookup)
+			if remove != "" {
+				want = strings.ReplaceAll(want, remove, "") // -r deletes the text wherever it occurs
+			}
 			if string(b) != want {
 				res.Violations = append(res.Violations, engine.V("cli-call", "call.dot-differs", "coca %v wrote\n%s\nCallGraph.Analysis returns\n%s", args, string(b), want))
 			}
 			out = append(out, "call "+engine.Hash(string(b)))
 		}
 		// rcall
-		if r := runCLI(cwd, "rcall", "-c", root); !cliFail(&res, "rcall", r) {
+		rargs := []string{"rcall", "-c", root}
+		if remove != "" {
+			rargs = append(rargs, "-r", remove)
+		}
+		if r := runCLI(cwd, rargs...); !cliFail(&res, "rcall", r) {
 			b, _ := os.ReadFile(filepath.Join(cwd, "coca_reporter", "rcall.dot"))
 			if engine.Reset != nil {
 				engine.Reset()
 			}
 			var wantMap map[string][]string
 			want := rcall.NewRCallGraph().Analysis(root, deps, func(m map[string][]string) { wantMap = m })
+			if remove != "" {
+				want = strings.ReplaceAll(want, remove, "")
+			}
 			if string(b) != want {
-				res.Violations = append(res.Violations, engine.V("cli-rcall", "rcall.dot-differs", "coca rcall -c %s wrote\n%s\nRCallGraph.Analysis returns\n%s", root, string(b), want))
+				res.Violations = append(res.Violations, engine.V("cli-rcall", "rcall.dot-differs", "coca %v wrote\n%s\nRCallGraph.Analysis returns\n%s", rargs, string(b), want))
 			}
 			var gotMap map[string][]string
 			readReport(cwd, "rcallmap.json", &gotMap)
@@ -264,10 +281,15 @@ func cliApiGen(c *engine.C) engine.Case {
 		files = append(files, FileSpec{Path: "src/" + cls.Name + ".java", Content: jgPrintWithCalls(cls, layout)})
 	}
 	files = append(files, FileSpec{Path: "src/Svc.java", Content: "package web;\n\npublic class Svc {\n    public void work() {\n        deeper();\n    }\n\n    public void deeper() {\n    }\n}\n"})
+	// the request-body types, so that apis.json carries their fields as method parameters
+	files = append(files, FileSpec{Path: "src/Book.java", Content: "package web;\n\npublic class Book {\n    private String isbn;\n    private String title;\n}\n"},
+		FileSpec{Path: "src/Order.java", Content: "package web;\n\npublic class Order {\n    private Long id;\n}\n"})
 	aggregate := c.Choose(3, "aggregate")
 	sortFlag := c.Bool("sort")
+	withoutForce := c.Bool("without-force-and-without-cached-apis.json")
+	remove := []string{"", "web.", "web.AlphaCtl.,web.", "web.,web.AlphaCtl.", "web.,web."}[c.Choose(5, "remove-names")]
 	return func() engine.Result {
-		res := engine.Result{InputKey: filesKey(files) + fmt.Sprint(aggregate, sortFlag), Input: filesInput(files), Nontrivial: true}
+		res := engine.Result{InputKey: filesKey(files) + fmt.Sprint(aggregate, sortFlag, withoutForce, remove), Input: map[string]interface{}{"files": filesInput(files), "without_force": withoutForce, "remove": remove}, Nontrivial: true}
 		if why := validateJava(files); why != "" {
 			res.Skipped = why
 			return res
@@ -294,11 +316,32 @@ func cliApiGen(c *engine.C) engine.Case {
 			prefix = "/none"
 		}
 		filtered := api_domain.FilterApiByPrefix(prefix, wantApis)
-		_, wantCounts := call.NewCallGraph().AnalysisByFiles(filtered, deps, diMap)
+		wantDot, wantCounts := call.NewCallGraph().AnalysisByFiles(filtered, deps, diMap)
 		if sortFlag {
 			api_domain.SortAPIs(wantCounts)
 		}
-		args := []string{"api", "-f", "-p", "src", "-c"}
+		// -r: the listed names are deleted wherever they occur; where two names match at one place the one
+		// given first on the command line wins
+		strip := func(text string) string {
+			if remove == "" {
+				return text
+			}
+			var alts []string
+			for _, n := range strings.Split(remove, ",") {
+				alts = append(alts, regexp.QuoteMeta(n))
+			}
+			return regexp.MustCompile(strings.Join(alts, "|")).ReplaceAllString(text, "")
+		}
+		for i := range wantCounts {
+			wantCounts[i].Caller = strip(wantCounts[i].Caller)
+		}
+		args := []string{"api", "-p", "src", "-c"}
+		if !withoutForce {
+			args = append(args, "-f")
+		}
+		if remove != "" {
+			args = append(args, "-r", remove)
+		}
 		if prefix != "" {
 			args = append(args, "-a", prefix)
 		}
@@ -314,7 +357,12 @@ func cliApiGen(c *engine.C) engine.Case {
 		ka := func(as []api_domain.RestAPI) string {
 			var rows []string
 			for _, a := range as {
-				rows = append(rows, fmt.Sprintf("%s %s %s %s.%s.%s", a.HttpMethod, a.Uri, a.RequestBodyClass, a.PackageName, a.ClassName, a.MethodName))
+				var ps []string
+				for k, v := range a.MethodParams {
+					ps = append(ps, k+":"+v)
+				}
+				sort.Strings(ps)
+				rows = append(rows, fmt.Sprintf("%s %s %s %s.%s.%s {%s}", a.HttpMethod, a.Uri, a.RequestBodyClass, a.PackageName, a.ClassName, a.MethodName, strings.Join(ps, ",")))
 			}
 			return strings.Join(rows, "\n")
 		}
@@ -362,6 +410,11 @@ func cliApiGen(c *engine.C) engine.Case {
 				res.Violations = append(res.Violations, engine.V("cli-api", "api.csv-row", "api.csv lacks the row %d,%s,%s,%s:\n%s", w.Size, w.HTTPMethod, w.URI, w.Caller, string(csvb)))
 				break
 			}
+		}
+		// api.dot is the chain graph of the listed APIs, with the -r names deleted
+		dotb, _ := os.ReadFile(filepath.Join(cwd, "coca_reporter", "api.dot"))
+		if string(dotb) != strip(wantDot) {
+			res.Violations = append(res.Violations, engine.V("cli-api", "api.dot-differs", "coca %v wrote api.dot\n%s\nAnalysisByFiles (with the -r names deleted) returns\n%s", args, string(dotb), strip(wantDot)))
 		}
 		res.Outcome = ka(gotApis) + "\n" + fmt.Sprint(body)
 		return res
@@ -495,7 +548,7 @@ func cliTodoGen(c *engine.C) engine.Case {
 		}
 		prevKind = tk.Kind
 	}
-	ext := c.Choose(3, "ext")
+	ext := c.Choose(6, "ext")
 	return func() engine.Result {
 		name, filt := "a.java", ".java"
 		switch ext {
@@ -504,6 +557,14 @@ func cliTodoGen(c *engine.C) engine.Case {
 		case 2:
 			filt = ".java,.py"
 			name = "a.py"
+		case 3:
+			// an extension with two dots
+			name, filt = "a.spec.ts", ".spec.ts"
+		case 4:
+			name, filt = "a.spec.ts", ".spec.ts,.ts"
+		case 5:
+			// an extension given without its dot
+			filt = "java"
 		}
 		files := []FileSpec{{Path: "src/" + name, Content: strings.Join(lines, "\n") + "\n"}, {Path: "src/other.kt", Content: "// TODO: kotlin file\n"}}
 		res := engine.Result{InputKey: filesKey(files) + filt, Input: map[string]interface{}{"files": filesInput(files), "ext": filt}, Nontrivial: true}
